@@ -53,7 +53,31 @@ where
         let spec = target.spec::<T>();
         let hx = |v: &[f64]| v.iter().map(|x| T::from64(*x).hex()).collect::<Vec<_>>().join(" ");
         let size = (n_chains * dim * (l + 1)) as u64;
+        let (eps0, l0) = (eps, l);
+        let (mut eps, mut l) = (eps0, l0);
         for step in 0..n_steps {
+            // every public field is an input: between two steps the caller may retune the step size / trajectory length
+            // or move the chains (a quarter of the steps after the first)
+            if step > 0 && (seed >> (step % 48)) & 3 == 0 {
+                match (seed >> (8 + step % 40)) % 3 {
+                    0 => {
+                        eps = eps0 * [0.37, 1.9, 0.011][(seed as usize >> 3) % 3];
+                        s.step_size = T::from64(eps);
+                        out.count("step_size_changed_between_steps");
+                    }
+                    1 => {
+                        l = (l0 + 1 + (seed as usize >> 5) % 4) % 9;
+                        s.n_leapfrog = l;
+                        out.count("n_leapfrog_changed_between_steps");
+                    }
+                    _ => {
+                        let cur = positions_of::<T, B>(&s.positions);
+                        let flat: Vec<T> = cur.iter().flat_map(|r| r.iter().map(|x| T::from64(*x * 0.5 - 0.1))).collect();
+                        s.positions = Tensor::<B, 2>::from_data(TensorData::new(flat, [n_chains, dim]), &B::Device::default());
+                        out.count("positions_overwritten_between_steps");
+                    }
+                }
+            }
             let before = positions_of::<T, B>(&s.positions);
             // row independence: the same step from a clone in which every *other* row has been moved
             let probe_row = which_rows[0];
